@@ -210,6 +210,51 @@ def mirx_fail(cell):
     return st
 
 
+def tf_pipeline_problems():
+    """as_tfdataset on tfrec: the recorded tf.data pipeline must read EXACTLY the selected shard paths (an op that globs
+    or skips unreadable files would drop a missing shard silently) and must not ignore errors."""
+    import sedpack.io.dataset_iteration as DI
+    from .. import iterlab
+    problems = []
+    with common.scratch_dir("vt07t_") as tmp:
+        d, table, written = iterscen.build(tmp, "short-last")
+        d.dataset_structure.shard_file_type = "tfrec"
+        want = [str(d.path / s.file_infos[0].file_path) for s in d.shard_info_iterator("train")]
+        for shuffle in (0, 3):
+            rec = iterlab.RecTF()
+            with iterlab.patched(DI, tf=rec, get_from_tfrecord=lambda desc: ("decode", len(desc))):
+                ds = d.as_tfdataset("train", repeat=False, shuffle=shuffle, batch_size=0)
+            if ds.source != "from_tensor_slices":
+                problems.append(f"shuffle={shuffle}: the shard paths enter the pipeline through tf.data.Dataset.{ds.source} (file patterns "
+                                f"are matched against existing files: a deleted shard would be skipped silently)")
+            elif sorted(ds.payload) != sorted(want):
+                problems.append(f"shuffle={shuffle}: the pipeline reads {len(ds.payload)} paths, {len(want)} shards are selected")
+            for name, a, k in ds.ops:
+                if name in ("ignore_errors", "filter") or "ignore_errors" in str(k):
+                    problems.append(f"shuffle={shuffle}: the pipeline contains {name} (errors of unreadable shards are swallowed)")
+    return problems
+
+
+def real_tf_case():
+    """Real TensorFlow, real tfrec files: a deleted shard must raise in as_tfdataset (shuffled and unshuffled)."""
+    problems = []
+    for shuffle in (0, 5):
+        for pos in (0, -1):
+            with common.scratch_dir("vt07tf_") as tmp:
+                d = fillerlab.make_dataset(tmp / "ds", ft="tfrec", eps=2)
+                with d.filler() as f:
+                    for v in range(8):
+                        f.write_example(values=fillerlab.example(v), split="train")
+                paths = [d.path / s.file_infos[0].file_path for s in d.shard_info_iterator("train")]
+                os.unlink(paths[pos])
+                try:
+                    got = [int(x["a"][0]) for x in d.as_tfdataset("train", repeat=False, shuffle=shuffle, batch_size=0).as_numpy_iterator()]
+                    problems.append(f"as_tfdataset(tfrec, shuffle={shuffle}) with a deleted shard ended normally with {len(got)} of 8 examples")
+                except Exception:  # noqa: BLE001
+                    pass
+    return problems
+
+
 def cells(tier):
     out = []
     layouts = ["short-last", "singles"] + (["four-shards", "nested"] if tier == "thorough" else [])
@@ -260,6 +305,9 @@ def run(tier, seed):
             iface, _, layout = head.partition("/")
             viols.append(Violation(sig, f"{c['msg']} (model {c['model']})", dict(mode="symx", model=c["model"], cfg=dict(
                 iface=iface, layout=layout or "singles", shuffled=int("shuffled=True" in c["msg"])))))
+    tfp = tf_pipeline_problems()
+    if tfp:
+        viols.append(Violation("C07:tfrec-pipeline-may-skip-unreadable-shards", "as_tfdataset (tfrec): " + tfp[0], dict(mode="tf")))
     return Result(
         property_id=PROP, engine="symx + pocomp (+ finite fork on the real decoders / native extension)",
         explanation="(A) bounded symbolic execution with z3 of the real Python iteration code with a decoder that raises for one "
@@ -284,7 +332,12 @@ def run(tier, seed):
 
 
 def replay(case):
-    common.import_sedpack()
+    common.import_sedpack(need_tf=(case["mode"] == "tf"))
+    if case["mode"] == "tf":
+        pr = real_tf_case()
+        if pr:
+            return True, "real TensorFlow run: " + str(pr[:2])
+        return False, "real TensorFlow raises for a deleted shard"
     if case["mode"] == "pocomp":
         return c13.replay(dict(kind=case["kind"], schedule=case["schedule"]))
     if case["mode"] == "real":
